@@ -220,6 +220,12 @@ func VerifC06API() {
 		rt.Assert(len(fsys.Flocks) == 1 && fsys.Flocks[0].How == syscall.LOCK_EX, "mutex-takes-exclusive-lock")
 		rt.Assert(fsys.OpenHandles(vPath) == 1, "mutex-holds-descriptor")
 		unlock()
+		// the lock file stays: a waiter already holding a descriptor on it and a later caller
+		// opening the path must meet on the same file
+		rt.Assert(fsys.Exists(vPath), "mutex-unlock-leaves-the-lock-file")
+		for _, l := range fsys.Log {
+			rt.Assert(l != "remove "+vPath && !strings.HasPrefix(l, "rename "+vPath), "mutex-never-unlinks-the-lock-file")
+		}
 		rt.Reach("mutex")
 	}
 	rt.Assert(len(fsys.Flocks) == 2, "one-lock-one-unlock")
